@@ -2,7 +2,7 @@
 # tools_seedcheck.sh CNN [check-id ...]  — confirm a seeded change in /tmp/seed/CNN and run our check(s) against it.
 # Never touches /repo: the checks run with VERIF_REPO pointing at the scratch worktree (patch applied there).
 ID=$1; shift; CHECKS="${@:-$ID}"
-SEEDROOT=${SEEDROOT:-/tmp/seed}; WT=$SEEDROOT/$ID; OUT=$WT/out; DST=/verif/seeded/$ID
+SEEDROOT=${SEEDROOT:-/tmp/seed}; WT=$SEEDROOT/$ID; OUT=$WT/out; DST=/verif/seeded/$ID${SEEDSUFFIX}
 [ -f $OUT/patch.diff ] || { echo "no patch"; exit 2; }
 cd $WT || exit 2
 export PYTHONPATH=$WT
@@ -39,7 +39,7 @@ import json, sys
 pid, w, wo, t, res, needs = sys.argv[1:7]
 import os
 nd = json.load(open("/verif/seeded/needs.json")) if os.path.exists("/verif/seeded/needs.json") else {}
-needs = nd.get(pid, needs)
+needs = nd.get(pid + os.environ.get("SEEDSUFFIX", ""), needs)
 checks = {r.split(":")[0]: int(r.split(":")[1]) for r in res.split()}
 meta = dict(property=pid, breaks=pid, needs_to_manifest=needs,
             origin="independent sub-agent given only the property text and a scratch worktree (no access to /verif)",
@@ -49,6 +49,6 @@ meta = dict(property=pid, breaks=pid, needs_to_manifest=needs,
                                      "VERIF_REPO=<worktree> ./check <id> (quick tier, seed 1)"]),
             check_exit_codes=checks,
             detected={k: (v == 1) for k, v in checks.items()})
-json.dump(meta, open(f"/verif/seeded/{pid}/meta.json", "w"), indent=1)
+json.dump(meta, open(f"/verif/seeded/{pid}{os.environ.get('SEEDSUFFIX','')}/meta.json", "w"), indent=1)
 print("archived", pid, meta["detected"])
 PY
